@@ -646,7 +646,12 @@ def discharge(path, kind, payload, timeout_ms):
                     for key_, (r_, e_) in path.sqrt_atoms.items():
                         if q.has(r_):
                             q = q.subs(r_ ** 2, e_)
-                    if q == 0 or sp.expand(q) == 0:
+                    if q == 0:
+                        how.append('atom-rewriting')
+                        continue
+                    with P.time_limit(3):
+                        z_ = sp.expand(q) == 0
+                    if z_:
                         how.append('atom-rewriting')
                         continue
                 except Exception:
